@@ -184,41 +184,136 @@ func MakeNoZero(n int) []byte    { return make([]byte, n) }
 // intercepts it.
 func Unsupported(msg string) { panic("verif: unsupported: " + msg) }
 
-// HTMLUnescape models html.UnescapeString for the strings the renderer gives
-// it: it decodes exactly the five references the HTML escaper emits and leaves
-// the modelled kernel on any other '&' (the real function knows 2231 named
-// references).
+// HTMLUnescape models html.UnescapeString by porting its unescapeEntity. The
+// numeric part is the real algorithm (references to U+0080..U+009F, which the
+// real function maps through a Windows-1252 table, leave the kernel). Of the
+// 2231 named references the model knows amp, lt, gt, quot (with and without
+// semicolon, lower and upper case) and apos;; a name made only of digits is
+// not a reference; any other name containing a letter leaves the kernel.
 func HTMLUnescape(s string) string {
 	if IndexByteString(s, '&') < 0 {
 		return s
 	}
 	var out []byte
-	for i := 0; i < len(s); {
-		if s[i] != '&' {
-			out = append(out, s[i])
-			i++
+	for src := 0; src < len(s); {
+		if s[src] != '&' {
+			out = append(out, s[src])
+			src++
 			continue
 		}
-		rest := s[i:]
-		switch {
-		case HasPrefix(rest, "&#34;"):
-			out = append(out, '"')
-			i += 5
-		case HasPrefix(rest, "&#39;"):
-			out = append(out, '\'')
-			i += 5
-		case HasPrefix(rest, "&amp;"):
+		t := s[src:]
+		i := 1
+		if len(t) <= 1 {
 			out = append(out, '&')
-			i += 5
-		case HasPrefix(rest, "&lt;"):
-			out = append(out, '<')
-			i += 4
-		case HasPrefix(rest, "&gt;"):
-			out = append(out, '>')
-			i += 4
-		default:
-			Unsupported("html.UnescapeString on a reference the HTML escaper does not emit")
+			src++
+			continue
 		}
+		if t[i] == '#' {
+			if len(t) <= 3 {
+				out = append(out, '&')
+				src++
+				continue
+			}
+			i++
+			c := t[i]
+			hex := false
+			if c == 'x' || c == 'X' {
+				hex = true
+				i++
+			}
+			x := rune(0)
+			for i < len(t) {
+				c = t[i]
+				i++
+				if hex {
+					if '0' <= c && c <= '9' {
+						x = 16*x + rune(c) - '0'
+						continue
+					} else if 'a' <= c && c <= 'f' {
+						x = 16*x + rune(c) - 'a' + 10
+						continue
+					} else if 'A' <= c && c <= 'F' {
+						x = 16*x + rune(c) - 'A' + 10
+						continue
+					}
+				} else if '0' <= c && c <= '9' {
+					x = 10*x + rune(c) - '0'
+					continue
+				}
+				if c != ';' {
+					i--
+				}
+				break
+			}
+			if i <= 3 {
+				out = append(out, '&')
+				src++
+				continue
+			}
+			if 0x80 <= x && x <= 0x9F {
+				Unsupported("html.UnescapeString on a Windows-1252 numeric reference")
+			} else if x == 0 || (0xD800 <= x && x <= 0xDFFF) || x > 0x10FFFF {
+				x = 0xFFFD
+			}
+			switch {
+			case x < 0x80:
+				out = append(out, byte(x))
+			case x < 0x800:
+				out = append(out, byte(0xC0|x>>6), byte(0x80|x&0x3F))
+			case x < 0x10000:
+				out = append(out, byte(0xE0|x>>12), byte(0x80|(x>>6)&0x3F), byte(0x80|x&0x3F))
+			default:
+				out = append(out, byte(0xF0|x>>18), byte(0x80|(x>>12)&0x3F), byte(0x80|(x>>6)&0x3F), byte(0x80|x&0x3F))
+			}
+			src += i
+			continue
+		}
+		// named reference: the longest run of letters and digits, and a semicolon
+		letters := false
+		for i < len(t) {
+			c := t[i]
+			i++
+			if 'a' <= c && c <= 'z' || 'A' <= c && c <= 'Z' {
+				letters = true
+				continue
+			}
+			if '0' <= c && c <= '9' {
+				continue
+			}
+			if c != ';' {
+				i--
+			}
+			break
+		}
+		name := t[1:i]
+		switch name {
+		case "amp;", "AMP;", "amp", "AMP":
+			out = append(out, '&')
+			src += i
+			continue
+		case "lt;", "LT;", "lt", "LT":
+			out = append(out, '<')
+			src += i
+			continue
+		case "gt;", "GT;", "gt", "GT":
+			out = append(out, '>')
+			src += i
+			continue
+		case "quot;", "QUOT;", "quot", "QUOT":
+			out = append(out, '"')
+			src += i
+			continue
+		case "apos;":
+			out = append(out, '\'')
+			src += i
+			continue
+		}
+		if letters {
+			Unsupported("html.UnescapeString on a named reference outside the model")
+		}
+		// no letters: not a reference, copied unchanged
+		out = append(out, t[:i]...)
+		src += i
 	}
 	return string(out)
 }
